@@ -316,12 +316,7 @@ func fieldsByLocalID(r *prng.Rand, st *model.Value, ctx *model.Context) *model.V
 	var fix func(x *model.Value, depth int)
 	fix = func(x *model.Value, depth int) {
 		if x.Field != nil && x.Field.HasText && !x.Field.ByID {
-			var ids []int64
-			for i, sl := range ctx.Slots {
-				if i >= 9 && sl.Known && sl.Text == x.Field.Text {
-					ids = append(ids, int64(i+1))
-				}
-			}
+			ids := ctx.IDsOf(x.Field.Text, 10)
 			if len(ids) > 0 && r.Bool() {
 				*x.Field = model.Sym{SID: ids[r.Intn(len(ids))], ByID: true}
 			}
@@ -352,6 +347,9 @@ func genHistory(r *prng.Rand, cat *model.Catalog, binary bool) []ctxEvent {
 			id = max // last defined
 		default:
 			id = int64(r.Intn(int(max) + 1))
+			if max > 100000 && r.Bool() {
+				id = max - int64(r.Intn(12)) // the last few IDs: the local symbols behind a huge stretch of padding
+			}
 		}
 		if !binary && r.Chance(1, 4) {
 			// by text (text format only)
@@ -387,6 +385,33 @@ func genHistory(r *prng.Rand, cat *model.Catalog, binary bool) []ctxEvent {
 			}
 		}
 		return v
+	}
+	if r.Chance(1, 14) {
+		// a long chain of appending tables (each becomes one more import of the next context), then values that refer to
+		// the first and last ID of each link
+		var bounds []int64
+		for link, links := 0, r.Range(14, 24); link < links; link++ {
+			d := model.LSTDecl{Append: true}
+			if link == 0 && r.Bool() {
+				d.Append = false
+			}
+			for j := r.Range(1, 2); j > 0; j-- {
+				d.Symbols = append(d.Symbols, model.Slot{Text: ctxLocalTexts[r.Intn(len(ctxLocalTexts))], Known: true})
+			}
+			events = append(events, ctxEvent{V: lstStruct(r, d)})
+			ctx.Apply(d, cat)
+			bounds = append(bounds, ctx.MaxID(), ctx.MaxID()-int64(len(d.Symbols))+1)
+			if r.Chance(1, 3) {
+				events = append(events, ctxEvent{V: model.NewSymbol(model.Sym{SID: bounds[r.Intn(len(bounds))], ByID: true})})
+			}
+		}
+		l := model.NewSeq(model.List)
+		for _, b := range bounds {
+			l.Kids = append(l.Kids, model.NewSymbol(model.Sym{SID: b, ByID: true}))
+		}
+		l.Kids = append(l.Kids, model.NewSymbol(model.Sym{SID: 9, ByID: true}), model.NewSymbol(model.Sym{SID: 10, ByID: true}))
+		events = append(events, ctxEvent{V: l})
+		n = r.Range(0, 4)
 	}
 	for e := 0; e < n && !failed; e++ {
 		switch k := r.Intn(10); {
@@ -431,6 +456,10 @@ func genHistory(r *prng.Rand, cat *model.Catalog, binary bool) []ctxEvent {
 					imp.HasMaxID, imp.MaxID = true, length+int64(r.Range(1, 4))
 				default:
 					imp.HasMaxID, imp.MaxID = true, int64(r.Intn(14))
+				}
+				if r.Chance(1, 40) {
+					// a declared max_id far beyond the table: IDs that need more than 16 and more than 32 bits
+					imp.HasMaxID, imp.MaxID = true, []int64{65530, 1<<32 - 11, 1 << 32, 1<<32 + 5, 1 << 40}[r.Intn(5)]
 				}
 				d.Imports = append(d.Imports, imp)
 			}
